@@ -19,3 +19,45 @@ def handleCdp (req : Json) : Except String Json := do
   pure (Json.mkObj [("val", Codec.enc v)])
 
 end PGM.Driver
+
+namespace PGM.Driver
+open PGM
+
+/-- probability vector of a selection primitive, computed with the *generated* score expressions -/
+def handleEM (req : Json) : Except String Json := do
+  let prim ← (← req.getObjVal? "prim").getStr?
+  let q : List Float ← decList (← req.getObjVal? "q")
+  let eps : Float ← Codec.dec (← req.getObjVal? "eps")
+  let sens : Float ← Codec.dec (← req.getObjVal? "sens")
+  let mono := (req.getObjValAs? Bool "monotonic").toOption.getD false
+  let bounded := (req.getObjValAs? Bool "bounded").toOption.getD false
+  let base : Option (List Float) ← match req.getObjVal? "base" with
+    | .ok Json.null => pure none
+    | .ok j => do pure (some (← decList j))
+    | .error _ => pure none
+  let qmax := q.foldl FloatS.fmax (q.headD 0.0)
+  let scores : List Float ← match prim with
+    | "mech" => match base with
+      | none => pure (q.map (fun x => Gen.F.mech_em_score eps sens (Gen.F.mech_em_shift x qmax)))
+      | some b => pure (List.zipWith (fun x bi => Gen.F.mech_em_score_base eps sens (Gen.F.mech_em_shift x qmax) (Float.log bi)) q b)
+    | "mst" => pure (q.map (fun x => Gen.F.mst_em_scores (Gen.F.mst_em_coef mono) eps sens x))
+    | "ada" => pure (q.map (fun x => Gen.F.ada_em_scores (Gen.F.ada_em_coef mono) eps sens x qmax))
+    | "mwem" => pure (q.map (fun x => Gen.F.mwem_sel_score eps (Gen.F.mwem_sel_sensitivity bounded) x qmax))
+    | _ => throw s!"unknown primitive {prim}"
+  let l := FloatS.lse scores
+  pure (Json.mkObj [("p", encList (scores.map (fun s => Float.exp (s - l))))])
+
+def handleScale (req : Json) : Except String Json := do
+  let fn ← (← req.getObjVal? "fn").getStr?
+  let a : Float ← Codec.dec (← req.getObjVal? "a")
+  let b : Float ← Codec.dec (← req.getObjVal? "b")
+  let bounded := (req.getObjValAs? Bool "bounded").toOption.getD false
+  let v ← match fn with
+    | "laplace_scale" => pure (Gen.F.mech_laplace_scale bounded a b)
+    | "gaussian_scale" => pure (Gen.F.mech_gaussian_scale bounded b a 0.0 0.0)   -- a = sensitivity, b = sigma_ana
+    | "gaussian_arg" => pure (Gen.F.mech_gaussian_noise_scale_arg a)
+    | "laplace_arg" => pure (Gen.F.mech_laplace_noise_scale_arg a)
+    | _ => throw s!"unknown fn {fn}"
+  pure (Json.mkObj [("val", Codec.enc v)])
+
+end PGM.Driver
